@@ -275,8 +275,9 @@ def c27(c):
     if c.violations:
         return c.finish(rule="stopped after the first failing stage")
 
-    # 5. many bins (thorough): the 100th-root iteration overflows from bin 499 on
-    if thorough:
+    # 5. many bins (600-bin parameter set, 8 series; both tiers - it is cheap): the 100th-root iteration overflows
+    #    from bin 499 on (F-C27-b); any collapse at a lower bin is a violation
+    if True:
         tr2 = os.path.join(c.scratch, "manybins.ndjson")
         targs = ["trace-weight", "-out", tr2, "-mode", "manybins"]
         rep = vf.run_harness(H, targs, env={"VERIF_SEED": c.seed})
@@ -376,7 +377,7 @@ PROPERTIES = {
                     "weight; the real functions are swept over every bin boundary +-1 up to twice the ceiling, exponents on the 1/100 "
                     "grid, 5 counts, 3 multipliers under a deadline and TLC checks the relations on the logged results.",
             "note": "The numeric layer is trace validation only: there is no exhaustive model of ApproxRoot. Known findings: burn just "
-                    "above the ceiling (F-C27-a), weight collapse from bin 499 on (F-C27-b, thorough tier)."},
+                    "above the ceiling (F-C27-a), weight collapse from bin 499 on (F-C27-b)."},
     "C33": {"run": c33, "level": "model_checking", "engine": "reward", "design_ref": "DESIGN.md section 6 C33",
             "technique": "TLA+ model of the selection loop over an index stream (Session.tla) checked by TLC; every finished run replayed "
                          "into types.NewSessionNodes over a real nodes keeper; recorded traces validated by TLC (TraceSession.tla)",
